@@ -822,7 +822,7 @@ func scenarioC11(c *hlib.RunCtx) *hlib.Violation {
 		mgen.WriteCounterFile(t, s, loc, start.Add(-time.Duration(ago)*24*time.Hour), days, t.Biased(2, 5, 6))
 	}
 	saveReader := rand.Reader
-	rand.Reader = xr{t, []float64{0.25, 0.5, mgen.Dyadic(1<<19 + 1), 0.75}}
+	rand.Reader = xr{t, []float64{0.25, 0.5, mgen.Dyadic(1<<19 + 1), 0.75, 0}} // (0: the entropy source returns a power of two)
 	defer func() { rand.Reader = saveReader }()
 	configstore.VerifDownload = func(version string, env []string) (*telemetry.UploadConfig, string, error) {
 		js, _ := json.Marshal(cfg.Real)
